@@ -1,13 +1,14 @@
 -------------------------------- MODULE Wire --------------------------------
-(* Design-level check and case export for the wire part of C02.               *)
+(* Design-level check and case export for the wire part of C01/C02/C03.       *)
 EXTENDS WireDefs, Json, SequencesExt
-CONSTANT MaxBatch
+CONSTANTS MaxBatch,     \* batch compositions up to this many members
+          FrameCalls    \* reply framings for 1..FrameCalls outstanding calls
 
 ShapeOut(c) == [count |-> ExpectedShape(c).count, otherResp |-> ExpectedShape(c).otherResp, lines |-> ExpectedShape(c).lines,
                 code |-> ExpectedShape(c).code, alive |-> ExpectedShape(c).alive, panic |-> ""]
 BatchOut(c) == [alive |-> ExpectedBatch(c).alive, flushes |-> ExpectedBatch(c).flushes, flushAfter |-> ExpectedBatch(c).flushAfter,
                 flushSize |-> ExpectedBatch(c).flushSize, singles |-> ExpectedBatch(c).singles,
-                premature |-> ExpectedBatch(c).premature, panic |-> "", reuseOk |-> TRUE,
+                premature |-> ExpectedBatch(c).premature, panic |-> "", reuseOk |-> ExpectedBatch(c).reuseOk,
                 handled |-> SelectSeq(IdPerm(Len(c.members)), LAMBDA i : c.members[i] \in {"call", "notif"})]
 \* cases on which the code-shaped design itself breaks the property: leads, confirmed (or not) on the real code
 ShapeLeads == {c \in ShapeSet : ~HoldsShape(c, ShapeOut(c))}
@@ -17,9 +18,23 @@ BatchLeads == {c \in AllBatches : ~HoldsBatch(c, BatchOut(c))}
 ShapeJson(c) == [t |-> "shape", era |-> c.era, method |-> c.method, hasId |-> c.hasId, idc |-> c.idc, params |-> c.params,
                  members |-> <<>>, order |-> <<>>]
 BatchJson(c) == [t |-> "batch", era |-> c.era, method |-> "", hasId |-> FALSE, idc |-> "", params |-> "",
-                 members |-> c.members, order |-> c.order]
+                 members |-> c.members, order |-> c.order, reuse |-> c.reuse]
+\* reply framings (WireDefs!FramingSet(FrameCalls), built as a sequence: TLC normalises a set of 27k nested records slowly);
+\* the code-shaped design must satisfy the C01 (and C02) clauses on every framing
+FrameKeys == SetToSeq({<<sd, k, ex>> : sd \in {"client", "server"}, k \in 1..FrameCalls, ex \in SUBSET FrameExtras})
+RowsOf(key) == LET sq == SetToSeq(Framings(Resps(key[2]) \cup key[3])) IN
+               [i \in 1..Len(sq) |-> [t |-> "framing", side |-> key[1], ncalls |-> key[2], frames |-> sq[i]]]
+FramingRows == FlattenSeq([i \in 1..Len(FrameKeys) |-> RowsOf(FrameKeys[i])])
+FramingOut(c) == [outcome |-> ExpectedFraming(c).outcome, doneAfter |-> ExpectedFraming(c).doneAfter, notifs |-> ExpectedFraming(c).notifs,
+                  qAnswers |-> ExpectedFraming(c).qAnswers, qOther |-> ExpectedFraming(c).qOther, alive |-> ExpectedFraming(c).alive, panic |-> ""]
+FramingLeads == {i \in DOMAIN FramingRows : ~HoldsFraming(FramingRows[i], FramingOut(FramingRows[i]))}
+\* ReadAll (the queueing of ioConn.Read) delivers exactly the members sent, in order
+ASSUME \A i \in DOMAIN FramingRows : ReadAll(<<>>, FramingRows[i].frames) = Flat(FramingRows[i].frames)
+ASSUME ndJsonSerialize("framecases.ndjson", FramingRows)
 ASSUME PrintT(ToJson([shapes |-> Cardinality(ShapeSet), batches |-> Cardinality(AllBatches),
-                      shapeLeads |-> Cardinality(ShapeLeads), batchLeads |-> Cardinality(BatchLeads)]))
+                      shapeLeads |-> Cardinality(ShapeLeads), batchLeads |-> Cardinality(BatchLeads),
+                      framings |-> Len(FramingRows), framingLeads |-> Cardinality(FramingLeads),
+                      reuseLeads |-> Cardinality({c \in AllBatches : ~BatchOut(c).reuseOk})]))
 HttpShapeJson(c) == [t |-> "httpshape", era |-> c.era, method |-> c.method, hasId |-> c.hasId, idc |-> c.idc, params |-> c.params,
                      members |-> <<>>, order |-> <<>>, json |-> c.json]
 HttpBatchJson(c) == [t |-> "httpbatch", era |-> c.era, method |-> "", hasId |-> FALSE, idc |-> "", params |-> "",
@@ -27,6 +42,11 @@ HttpBatchJson(c) == [t |-> "httpbatch", era |-> c.era, method |-> "", hasId |-> 
 ASSUME ndJsonSerialize("cases.ndjson", SetToSeq({ShapeJson(c) : c \in ShapeSet}) \o SetToSeq({BatchJson(c) : c \in AllBatches}))
 ASSUME ndJsonSerialize("httpcases.ndjson", SetToSeq({HttpShapeJson(c) : c \in HttpShapes}) \o SetToSeq({HttpBatchJson(c) : c \in HttpBatchSet(MaxBatch)}))
 ASSUME PrintT(ToJson([httpShapes |-> Cardinality(HttpShapes), httpBatches |-> Cardinality(HttpBatchSet(MaxBatch))]))
+\* vacuity: response-only arrays, arrays mixing responses with a notification / a call, and both re-use timings occur
+ASSUME FrameCalls >= 2 => \E i \in DOMAIN FramingRows : LET c == FramingRows[i] IN Len(c.frames) = 1 /\ c.frames[1].arr /\ c.frames[1].items = <<"r1", "r2">>
+ASSUME FrameCalls >= 1 => \E i \in DOMAIN FramingRows : LET c == FramingRows[i] IN
+                            \E j \in DOMAIN c.frames : CountOf(c.frames[j].items, "q") = 1 /\ CountOf(c.frames[j].items, "r1") = 1
+ASSUME MaxBatch >= 1 => \A ru \in ReuseTimings : \E c \in AllBatches : c.reuse = ru
 \* vacuity: every mandated code class occurs
 ASSUME \A code \in {0, -32600, -32601, -32602} : \E c \in ShapeSet : c.hasId /\ Mandated(c) = {code}
 =============================================================================
